@@ -81,7 +81,8 @@ ClassifyC16(rec) ==
          IF ~JEq(rec.fetched, IF IsNull(rec.expected) THEN rec.expected ELSE DropNulls(rec.expected)) THEN "later_operation_on_the_same_patch_lost" ELSE "ok"
     \* the last-handled state (diff-base storages): stored -> merged by the server -> fetched gives the essence back, whatever it is
     [] rec.kind = "lasthandled" ->
-         IF ~JEq(rec.fetched, rec.essence) THEN "last_handled_state_not_read_back"
+         IF rec.names # rec.names_fresh THEN "annotation_names_depend_on_what_the_storage_served_before"      \* (identical across restarts)
+         ELSE IF ~JEq(rec.fetched, rec.essence) THEN "last_handled_state_not_read_back"
          ELSE IF ~JEq(rec.others_before, rec.others_after) THEN "store_disturbs_others"
          ELSE "ok"
     [] OTHER -> "unknown_record_kind"
